@@ -74,7 +74,7 @@ def tl13 : List Node := [
 
 def tl14 : List Node := [
   .ite ⟨[], [⟨[.var ("$index".toList) []]⟩]⟩ tl13 [],
-  .action ⟨[], [⟨[.var ("$param".toList) [("Name".toList)]]⟩, ⟨[.ident ("Exported".toList)]⟩]⟩,
+  .action ⟨[], [⟨[.var ("$param".toList) [("Name".toList)]]⟩]⟩,
   .text (" ".toList),
   .action ⟨[], [⟨[.var ("$param".toList) [("TypeString".toList)]]⟩]⟩]
 
@@ -129,7 +129,7 @@ def tl20 : List Node := [
 
 def tl21 : List Node := [
   .ite ⟨[], [⟨[.var ("$index".toList) []]⟩]⟩ tl20 [],
-  .action ⟨[], [⟨[.var ("$param".toList) [("Name".toList)]]⟩, ⟨[.ident ("Exported".toList)]⟩]⟩]
+  .action ⟨[], [⟨[.var ("$param".toList) [("Name".toList)]]⟩]⟩]
 
 def tl22 : List Node := [
   .text ("[".toList),
@@ -203,7 +203,7 @@ def tl31 : List Node := [
 
 def tl32 : List Node := [
   .ite ⟨[], [⟨[.var ("$index".toList) []]⟩]⟩ tl31 [],
-  .action ⟨[], [⟨[.var ("$param".toList) [("Name".toList)]]⟩, ⟨[.ident ("Exported".toList)]⟩]⟩]
+  .action ⟨[], [⟨[.var ("$param".toList) [("Name".toList)]]⟩]⟩]
 
 def tl33 : List Node := [
   .text ("[".toList),
@@ -227,7 +227,7 @@ def tl36 : List Node := [
 
 def tl37 : List Node := [
   .ite ⟨[], [⟨[.var ("$index".toList) []]⟩]⟩ tl36 [],
-  .action ⟨[], [⟨[.var ("$param".toList) [("Name".toList)]]⟩, ⟨[.ident ("Exported".toList)]⟩]⟩]
+  .action ⟨[], [⟨[.var ("$param".toList) [("Name".toList)]]⟩]⟩]
 
 def tl38 : List Node := [
   .text ("[".toList),
@@ -314,7 +314,7 @@ def tl41 : List Node := [
 
 def tl42 : List Node := [
   .ite ⟨[], [⟨[.var ("$index".toList) []]⟩]⟩ tl41 [],
-  .action ⟨[], [⟨[.var ("$param".toList) [("Name".toList)]]⟩, ⟨[.ident ("Exported".toList)]⟩]⟩]
+  .action ⟨[], [⟨[.var ("$param".toList) [("Name".toList)]]⟩]⟩]
 
 def tl43 : List Node := [
   .text ("[".toList),
@@ -385,6 +385,6 @@ def tl47 : List Node := [
 def moqTemplate : List Node := tl47
 
 /-- the raw template text -/
-def moqTemplateText : Str := ("// Code generated by moq; DO NOT EDIT.\n// github.com/matryer/moq\n\npackage {{.PkgName}}\n\nimport (\n{{- range .Imports}}\n\t{{. | ImportStatement}}\n{{- end}}\n)\n\n{{range $i, $mock := .Mocks -}}\n\n{{- if not $.SkipEnsure -}}\n// Ensure, that {{.MockName}} does implement {{$.SrcPkgQualifier}}{{.InterfaceName}}.\n// If this is not the case, regenerate this file with moq.\nvar _ {{$.SrcPkgQualifier}}{{.InterfaceName -}}\n\t{{- if .TypeParams }}[\n\t\t{{- range $index, $param := .TypeParams}}\n\t\t\t{{- if $index}}, {{end -}}\n\t\t\t{{if $param.Constraint}}{{$param.Constraint.String}}{{else}}{{$param.TypeString}}{{end}}\n\t\t{{- end -}}\n\t\t]\n\t{{- end }} = &{{.MockName}}\n\t {{- if .TypeParams }}[\n\t\t{{- range $index, $param := .TypeParams}}\n\t\t\t{{- if $index}}, {{end -}}\n\t\t\t{{if $param.Constraint}}{{$param.Constraint.String}}{{else}}{{$param.TypeString}}{{end}}\n\t\t{{- end -}}\n\t\t]\n\t{{- end -}}\n{}\n{{- end}}\n\n// {{.MockName}} is a mock implementation of {{$.SrcPkgQualifier}}{{.InterfaceName}}.\n//\n//\tfunc TestSomethingThatUses{{.InterfaceName}}(t *testing.T) {\n//\n//\t\t// make and configure a mocked {{$.SrcPkgQualifier}}{{.InterfaceName}}\n//\t\tmocked{{.InterfaceName}} := &{{.MockName}}{\n\t\t\t{{- range .Methods}}\n//\t\t\t{{.Name}}Func: func({{.ArgList}}) {{.ReturnArgTypeList}} {\n//\t\t\t\tpanic(\"mock out the {{.Name}} method\")\n//\t\t\t},\n\t\t\t{{- end}}\n//\t\t}\n//\n//\t\t// use mocked{{.InterfaceName}} in code that requires {{$.SrcPkgQualifier}}{{.InterfaceName}}\n//\t\t// and then make assertions.\n//\n//\t}\ntype {{.MockName}}\n{{- if .TypeParams -}}\n\t[{{- range $index, $param := .TypeParams}}\n\t\t\t{{- if $index}}, {{end}}{{$param.Name | Exported}} {{$param.TypeString}}\n\t{{- end -}}]\n{{- end }} struct {\n{{- range .Methods}}\n\t// {{.Name}}Func mocks the {{.Name}} method.\n\t{{.Name}}Func func({{.ArgList}}) {{.ReturnArgTypeList}}\n{{end}}\n\t// calls tracks calls to the methods.\n\tcalls struct {\n{{- range .Methods}}\n\t\t// {{.Name}} holds details about calls to the {{.Name}} method.\n\t\t{{.Name}} []struct {\n\t\t\t{{- range .Params}}\n\t\t\t// {{.Name | Exported}} is the {{.Name}} argument value.\n\t\t\t{{.Name | Exported}} {{.TypeString}}\n\t\t\t{{- end}}\n\t\t}\n{{- end}}\n\t}\n{{- range .Methods}}\n\tlock{{.Name}} {{$.Imports | SyncPkgQualifier}}.RWMutex\n{{- end}}\n}\n{{range .Methods}}\n// {{.Name}} calls {{.Name}}Func.\nfunc (mock *{{$mock.MockName}}\n{{- if $mock.TypeParams -}}\n\t[{{- range $index, $param := $mock.TypeParams}}\n\t\t{{- if $index}}, {{end}}{{$param.Name | Exported}}\n\t{{- end -}}]\n{{- end -}}\n) {{.Name}}({{.ArgList}}) {{.ReturnArgTypeList}} {\n{{- if not $.StubImpl}}\n\tif mock.{{.Name}}Func == nil {\n\t\tpanic(\"{{$mock.MockName}}.{{.Name}}Func: method is nil but {{$mock.InterfaceName}}.{{.Name}} was just called\")\n\t}\n{{- end}}\n\tcallInfo := struct {\n\t\t{{- range .Params}}\n\t\t{{.Name | Exported}} {{.TypeString}}\n\t\t{{- end}}\n\t}{\n\t\t{{- range .Params}}\n\t\t{{.Name | Exported}}: {{.Name}},\n\t\t{{- end}}\n\t}\n\tmock.lock{{.Name}}.Lock()\n\tmock.calls.{{.Name}} = append(mock.calls.{{.Name}}, callInfo)\n\tmock.lock{{.Name}}.Unlock()\n{{- if .Returns}}\n\t{{- if $.StubImpl}}\n\tif mock.{{.Name}}Func == nil {\n\t\tvar (\n\t\t{{- range .Returns}}\n\t\t\t{{.Name}} {{.TypeString}}\n\t\t{{- end}}\n\t\t)\n\t\treturn {{.ReturnArgNameList}}\n\t}\n\t{{- end}}\n\treturn mock.{{.Name}}Func({{.ArgCallList}})\n{{- else}}\n\t{{- if $.StubImpl}}\n\tif mock.{{.Name}}Func == nil {\n\t\treturn\n\t}\n\t{{- end}}\n\tmock.{{.Name}}Func({{.ArgCallList}})\n{{- end}}\n}\n\n// {{.Name}}Calls gets all the calls that were made to {{.Name}}.\n// Check the length with:\n//\n//\tlen(mocked{{$mock.InterfaceName}}.{{.Name}}Calls())\nfunc (mock *{{$mock.MockName}}\n{{- if $mock.TypeParams -}}\n\t[{{- range $index, $param := $mock.TypeParams}}\n\t\t{{- if $index}}, {{end}}{{$param.Name | Exported}}\n\t{{- end -}}]\n{{- end -}}\n) {{.Name}}Calls() []struct {\n\t\t{{- range .Params}}\n\t\t{{.Name | Exported}} {{.TypeString}}\n\t\t{{- end}}\n\t} {\n\tvar calls []struct {\n\t\t{{- range .Params}}\n\t\t{{.Name | Exported}} {{.TypeString}}\n\t\t{{- end}}\n\t}\n\tmock.lock{{.Name}}.RLock()\n\tcalls = mock.calls.{{.Name}}\n\tmock.lock{{.Name}}.RUnlock()\n\treturn calls\n}\n{{- if $.WithResets}}\n// Reset{{.Name}}Calls reset all the calls that were made to {{.Name}}.\nfunc (mock *{{$mock.MockName}}\n{{- if $mock.TypeParams -}}\n\t[{{- range $index, $param := $mock.TypeParams}}\n\t\t{{- if $index}}, {{end}}{{$param.Name | Exported}}\n\t{{- end -}}]\n{{- end -}}\n) Reset{{.Name}}Calls() {\n\tmock.lock{{.Name}}.Lock()\n\tmock.calls.{{.Name}} = nil\n\tmock.lock{{.Name}}.Unlock()\n}\n{{end}}\n{{end -}}\n{{- if $.WithResets}}\n// ResetCalls reset all the calls that were made to all mocked methods.\nfunc (mock *{{$mock.MockName}}\n{{- if $mock.TypeParams -}}\n\t[{{- range $index, $param := $mock.TypeParams}}\n\t\t{{- if $index}}, {{end}}{{$param.Name | Exported}}\n\t{{- end -}}]\n{{- end -}}\n) ResetCalls() {\n\t{{- range .Methods}}\n\tmock.lock{{.Name}}.Lock()\n\tmock.calls.{{.Name}} = nil\n\tmock.lock{{.Name}}.Unlock()\n\t{{end -}}\n}\n{{end -}}\n{{end -}}\n".toList)
+def moqTemplateText : Str := ("// Code generated by moq; DO NOT EDIT.\n// github.com/matryer/moq\n\npackage {{.PkgName}}\n\nimport (\n{{- range .Imports}}\n\t{{. | ImportStatement}}\n{{- end}}\n)\n\n{{range $i, $mock := .Mocks -}}\n\n{{- if not $.SkipEnsure -}}\n// Ensure, that {{.MockName}} does implement {{$.SrcPkgQualifier}}{{.InterfaceName}}.\n// If this is not the case, regenerate this file with moq.\nvar _ {{$.SrcPkgQualifier}}{{.InterfaceName -}}\n\t{{- if .TypeParams }}[\n\t\t{{- range $index, $param := .TypeParams}}\n\t\t\t{{- if $index}}, {{end -}}\n\t\t\t{{if $param.Constraint}}{{$param.Constraint.String}}{{else}}{{$param.TypeString}}{{end}}\n\t\t{{- end -}}\n\t\t]\n\t{{- end }} = &{{.MockName}}\n\t {{- if .TypeParams }}[\n\t\t{{- range $index, $param := .TypeParams}}\n\t\t\t{{- if $index}}, {{end -}}\n\t\t\t{{if $param.Constraint}}{{$param.Constraint.String}}{{else}}{{$param.TypeString}}{{end}}\n\t\t{{- end -}}\n\t\t]\n\t{{- end -}}\n{}\n{{- end}}\n\n// {{.MockName}} is a mock implementation of {{$.SrcPkgQualifier}}{{.InterfaceName}}.\n//\n//\tfunc TestSomethingThatUses{{.InterfaceName}}(t *testing.T) {\n//\n//\t\t// make and configure a mocked {{$.SrcPkgQualifier}}{{.InterfaceName}}\n//\t\tmocked{{.InterfaceName}} := &{{.MockName}}{\n\t\t\t{{- range .Methods}}\n//\t\t\t{{.Name}}Func: func({{.ArgList}}) {{.ReturnArgTypeList}} {\n//\t\t\t\tpanic(\"mock out the {{.Name}} method\")\n//\t\t\t},\n\t\t\t{{- end}}\n//\t\t}\n//\n//\t\t// use mocked{{.InterfaceName}} in code that requires {{$.SrcPkgQualifier}}{{.InterfaceName}}\n//\t\t// and then make assertions.\n//\n//\t}\ntype {{.MockName}}\n{{- if .TypeParams -}}\n\t[{{- range $index, $param := .TypeParams}}\n\t\t\t{{- if $index}}, {{end}}{{$param.Name}} {{$param.TypeString}}\n\t{{- end -}}]\n{{- end }} struct {\n{{- range .Methods}}\n\t// {{.Name}}Func mocks the {{.Name}} method.\n\t{{.Name}}Func func({{.ArgList}}) {{.ReturnArgTypeList}}\n{{end}}\n\t// calls tracks calls to the methods.\n\tcalls struct {\n{{- range .Methods}}\n\t\t// {{.Name}} holds details about calls to the {{.Name}} method.\n\t\t{{.Name}} []struct {\n\t\t\t{{- range .Params}}\n\t\t\t// {{.Name | Exported}} is the {{.Name}} argument value.\n\t\t\t{{.Name | Exported}} {{.TypeString}}\n\t\t\t{{- end}}\n\t\t}\n{{- end}}\n\t}\n{{- range .Methods}}\n\tlock{{.Name}} {{$.Imports | SyncPkgQualifier}}.RWMutex\n{{- end}}\n}\n{{range .Methods}}\n// {{.Name}} calls {{.Name}}Func.\nfunc (mock *{{$mock.MockName}}\n{{- if $mock.TypeParams -}}\n\t[{{- range $index, $param := $mock.TypeParams}}\n\t\t{{- if $index}}, {{end}}{{$param.Name}}\n\t{{- end -}}]\n{{- end -}}\n) {{.Name}}({{.ArgList}}) {{.ReturnArgTypeList}} {\n{{- if not $.StubImpl}}\n\tif mock.{{.Name}}Func == nil {\n\t\tpanic(\"{{$mock.MockName}}.{{.Name}}Func: method is nil but {{$mock.InterfaceName}}.{{.Name}} was just called\")\n\t}\n{{- end}}\n\tcallInfo := struct {\n\t\t{{- range .Params}}\n\t\t{{.Name | Exported}} {{.TypeString}}\n\t\t{{- end}}\n\t}{\n\t\t{{- range .Params}}\n\t\t{{.Name | Exported}}: {{.Name}},\n\t\t{{- end}}\n\t}\n\tmock.lock{{.Name}}.Lock()\n\tmock.calls.{{.Name}} = append(mock.calls.{{.Name}}, callInfo)\n\tmock.lock{{.Name}}.Unlock()\n{{- if .Returns}}\n\t{{- if $.StubImpl}}\n\tif mock.{{.Name}}Func == nil {\n\t\tvar (\n\t\t{{- range .Returns}}\n\t\t\t{{.Name}} {{.TypeString}}\n\t\t{{- end}}\n\t\t)\n\t\treturn {{.ReturnArgNameList}}\n\t}\n\t{{- end}}\n\treturn mock.{{.Name}}Func({{.ArgCallList}})\n{{- else}}\n\t{{- if $.StubImpl}}\n\tif mock.{{.Name}}Func == nil {\n\t\treturn\n\t}\n\t{{- end}}\n\tmock.{{.Name}}Func({{.ArgCallList}})\n{{- end}}\n}\n\n// {{.Name}}Calls gets all the calls that were made to {{.Name}}.\n// Check the length with:\n//\n//\tlen(mocked{{$mock.InterfaceName}}.{{.Name}}Calls())\nfunc (mock *{{$mock.MockName}}\n{{- if $mock.TypeParams -}}\n\t[{{- range $index, $param := $mock.TypeParams}}\n\t\t{{- if $index}}, {{end}}{{$param.Name}}\n\t{{- end -}}]\n{{- end -}}\n) {{.Name}}Calls() []struct {\n\t\t{{- range .Params}}\n\t\t{{.Name | Exported}} {{.TypeString}}\n\t\t{{- end}}\n\t} {\n\tvar calls []struct {\n\t\t{{- range .Params}}\n\t\t{{.Name | Exported}} {{.TypeString}}\n\t\t{{- end}}\n\t}\n\tmock.lock{{.Name}}.RLock()\n\tcalls = mock.calls.{{.Name}}\n\tmock.lock{{.Name}}.RUnlock()\n\treturn calls\n}\n{{- if $.WithResets}}\n// Reset{{.Name}}Calls reset all the calls that were made to {{.Name}}.\nfunc (mock *{{$mock.MockName}}\n{{- if $mock.TypeParams -}}\n\t[{{- range $index, $param := $mock.TypeParams}}\n\t\t{{- if $index}}, {{end}}{{$param.Name}}\n\t{{- end -}}]\n{{- end -}}\n) Reset{{.Name}}Calls() {\n\tmock.lock{{.Name}}.Lock()\n\tmock.calls.{{.Name}} = nil\n\tmock.lock{{.Name}}.Unlock()\n}\n{{end}}\n{{end -}}\n{{- if $.WithResets}}\n// ResetCalls reset all the calls that were made to all mocked methods.\nfunc (mock *{{$mock.MockName}}\n{{- if $mock.TypeParams -}}\n\t[{{- range $index, $param := $mock.TypeParams}}\n\t\t{{- if $index}}, {{end}}{{$param.Name}}\n\t{{- end -}}]\n{{- end -}}\n) ResetCalls() {\n\t{{- range .Methods}}\n\tmock.lock{{.Name}}.Lock()\n\tmock.calls.{{.Name}} = nil\n\tmock.lock{{.Name}}.Unlock()\n\t{{end -}}\n}\n{{end -}}\n{{end -}}\n".toList)
 
 end Moq.Generated
